@@ -158,7 +158,9 @@ class IterativeTighteningSearch(Bounded, Generic[B]):
                 and self.best_match.bounds().dominates(node.item.bounds()):
             self._delete_node(node)
             return
-        elif self.initial_bounds.dominates(node.item.bounds()):
+        elif self.initial_bounds.upper_bound < node.item.bounds().lower_bound:
+            # This item is strictly worse than the known bounds on the optimal solution.
+            # (An item whose bounds merely touch the initial bounds may itself be the optimal solution!)
             self._delete_node(node)
             return
         bounds: Range = node.item.bounds()
